@@ -130,13 +130,14 @@ def expose(d):
     return out
 
 
-def collect(ctx: Ctx, cs):
+def collect(ctx: Ctx, cs, ver=2):
     from msmart.device import AirConditioner as AC
     vloop.install_clock()
     loop = vloop.new_loop()
     net = vloop.Net(loop)
     ac = Scripted()
-    landev.LanDevice(loop, net, ac, version=2)
+    TOK, KEY = bytes(range(64)), bytes(range(100, 132))
+    landev.LanDevice(loop, net, ac, version=ver, token=TOK, key=KEY)
     rng = ctx.rng
     vectors = []
     good_state = acdev.resp_frame(3, acdev.encode_state(dict(acdev.DEFAULT_STATE, power=True, t2=45, mode=4, fan=80, turbo=True,
@@ -145,6 +146,8 @@ def collect(ctx: Ctx, cs):
     async def go():
         for k, (kind, style, f, pos, sub, fix) in enumerate(cs):
             d = AC(ip="10.0.0.1", port=6444, device_id=k)
+            if ver == 3:
+                await d.authenticate(TOK, KEY)          # (the exposed state then includes the credentials the object holds)
             hist = k % 3 != 0
             rich = k % 7 in (5, 6)
             if rich:
@@ -164,6 +167,10 @@ def collect(ctx: Ctx, cs):
             before = expose(d)
             g = corrupt(f, pos, sub, fix)
             ac.replies = [g]
+            if rich and k % 14 in (5, 13):
+                # only SOME of the refresh's queries are answered (with the corrupted frame), the others not at all - the last one among them
+                pat = ["gggs", "gsss", "sggs", "ggss"][(k // 14) % 4]
+                ac.script = [e for c in pat for e in ([[g]] if c == "g" else [[], [], []])]      # an unanswered query is transmitted three times
             raised = "none"
             entry = "refresh"
             try:
@@ -180,7 +187,8 @@ def collect(ctx: Ctx, cs):
             except Exception as e:  # noqa: BLE001
                 raised = type(e).__name__
             after = expose(d)
-            vectors.append({"kind": kind, "style": style, "orig": B(f), "frame": B(g), "pos": pos, "sub": sub, "fix": fix,
+            ac.script = []
+            vectors.append({"ver": ver,"kind": kind, "style": style, "orig": B(f), "frame": B(g), "pos": pos, "sub": sub, "fix": fix,
                             "same": before == after, "online": bool(d.online), "supported": bool(d.supported),
                             "raised": raised, "history": hist, "learned_capabilities": rich, "requery": bool(rich and k % 7 == 6), "entry": entry})
             if d._lan._protocol:
@@ -220,6 +228,7 @@ def run(ctx: Ctx) -> int:
                      f"INVARIANT CollisionCount\nCONSTANT SubStep = {step}\n", timeout=1200)
     cs = cases(ctx)
     vectors = collect(ctx, cs)
+    vectors += collect(ctx, cs[3::11], ver=3)        # ... and on authenticated V3 objects (the exposed state includes the credentials held)
     for v in vectors:
         ctx.count_distinct((v["kind"], v["style"], v["pos"], v["sub"], v["fix"]))
     judge(ctx, vectors)
@@ -230,7 +239,8 @@ def run(ctx: Ctx) -> int:
              "(quick: 17 boundary/random values per position, thorough: all 255) without fix-up, every body position with fix-up "
              "(plus every substitute the dual-check rule lets through); each fed as the only reply to refresh() on a fresh device "
              "and on a device with history (a valid exchange before; the original accepted before; capabilities with energy / humidity / property "
-             "polling learned and refreshed before, with and without a capability re-query answered by the corrupted frame); exposed state = to_dict() + "
+             "polling learned and refreshed before, with and without a capability re-query answered by the corrupted frame, with all or only some of "
+             "the refresh's queries answered); V2 and authenticated V3 objects; exposed state = to_dict() + "
              "every supports_* / supported_* / min / max attribute; distinct = (kind, style, position, substitute, fixup)",
         assumptions=["property responses with fix-up are exempt from the body check by design and are not enumerated",
                      "known finding D6: accepted corruptions of class dual-check-collision / becomes-property-id (see known_findings.json)"])
